@@ -116,10 +116,12 @@ def run_case(case):
                 if os.path.lexists(m):
                     continue
                 if pz["kind"] == "file":
-                    open(m, "wb").write(b"pre-existing file %d\n" % k)
+                    # (every third one is EMPTY: an empty file is an existing entry like any other)
+                    open(m, "wb").write(b"" if (case["i"] + k) % 3 == 0 else b"pre-existing file %d\n" % k)
                 elif pz["kind"] == "dir":
                     os.makedirs(m)
-                    open(os.path.join(m, b"inner"), "wb").write(b"inner %d\n" % k)
+                    if (case["i"] + k) % 2:          # ... and every other directory is empty
+                        open(os.path.join(m, b"inner"), "wb").write(b"inner %d\n" % k)
                 elif pz["kind"] == "symlink-file":
                     os.symlink(os.path.join(outside, b"precious"), m)
                 elif pz["kind"] == "symlink-dangling":
